@@ -195,8 +195,9 @@ Definition float_ok (O : oracles) (b : N) : Prop := o_parse_float O (o_fmt_float
 Record quote_laws (O : oracles) : Prop := mkQLaws {
   (* strconv: Unquote(Quote(s)) = s for every string *)
   law_unquote : forall s, o_unquote O (o_quote O s) = Some s;
-  (* Quote output is delimited by double quotes *)
-  law_quote_shape : forall s, exists m, o_quote O s = c_quote :: m ++ [c_quote];
+  (* Quote output is delimited by double quotes; inside, every double quote is escaped by a backslash and no
+     escape is left open (escaped_ok) *)
+  law_quote_shape : forall s, exists m, o_quote O s = c_quote :: m ++ [c_quote] /\ escaped_ok m = true;
   (* Quote escapes tab, newline, form feed, CR; a space appears only if the input has one *)
   law_quote_ws : forall s, memb c_space s = false -> forallb (fun c => negb (re_space c)) (o_quote O s) = true
 }.
@@ -232,8 +233,7 @@ Definition gdom_object (O : oracles) (o : object) : Prop :=
   | OInvalid => False
   end.
 Definition gdom_triple (O : oracles) (t : triple) : Prop :=
-  dom_node (subj t) = true /\ memb x0c (ntype (subj t)) = false /\ gdom_pred O (tpred t) /\
-  memb c_space (pid (tpred t)) = false /\ gdom_object O (tobj t).
+  dom_node (subj t) = true /\ memb x0c (ntype (subj t)) = false /\ gdom_pred O (tpred t) /\ gdom_object O (tobj t).
 
 Section WithOracles.
 Variable O : oracles.
@@ -344,9 +344,10 @@ Proof.
 Qed.
 
 Lemma print_pred_shape : forall p, exists m,
-  print_pred O p = (c_quote :: m) ++ c_quote :: [x40; x5b] ++ anchor_text p ++ [x5d] /\ o_quote O (pid p) = c_quote :: m ++ [c_quote].
+  print_pred O p = (c_quote :: m) ++ c_quote :: [x40; x5b] ++ anchor_text p ++ [x5d] /\ o_quote O (pid p) = c_quote :: m ++ [c_quote] /\
+  escaped_ok m = true.
 Proof.
-  intros p. destruct (law_quote_shape O Q (pid p)) as [m Hm]. exists m. split; [|exact Hm].
+  intros p. destruct (law_quote_shape O Q (pid p)) as [m [Hm Hesc]]. exists m. split; [|split; [exact Hm | exact Hesc]].
   unfold print_pred, anchor_text. rewrite Hm. cbn [app]. rewrite <- !app_assoc. reflexivity.
 Qed.
 
@@ -362,7 +363,7 @@ Qed.
 Lemma pred_roundtrip_g : forall p, gdom_pred O p -> parse_pred O (print_pred O p) = Ok p.
 Proof.
   intros p Hd. unfold parse_pred. rewrite print_pred_trim.
-  destruct (print_pred_shape p) as [m [E Hq]]. set (raw := print_pred O p) in *.
+  destruct (print_pred_shape p) as [m [E [Hq _]]]. set (raw := print_pred O p) in *.
   set (ft := anchor_text p) in *.
   assert (Hnq : ~ In c_quote ([x40; x5b] ++ ft ++ [x5d])).
   { intros H. cbn [app] in H. destruct H as [H|[H|H]]; try discriminate.
@@ -549,14 +550,14 @@ Proof. intros s H. apply forallb_forall. intros x Hx. rewrite (H x Hx). reflexiv
 Lemma triple_roundtrip_g : forall t, gdom_triple O t -> parse_triple O (print_triple O t) = Ok t.
 Proof.
   intros [s p o] Hd. unfold gdom_triple in Hd. cbn [subj tpred tobj] in Hd.
-  destruct Hd as [Hs [Hff [Hp [Hsp Ho]]]].
+  destruct Hd as [Hs [Hff [Hp Ho]]].
   pose proof Hs as Hs'. unfold dom_node, wf_node in Hs'. apply andb_true_iff in Hs'. destruct Hs' as [Hs' Hlt].
   apply andb_true_iff in Hs'. destruct Hs' as [Hty Hid].
   destruct s as [ty id]. cbn [ntype nid] in *.
   destruct (type_ok_shape _ Hty) as [tr Htr].
   destruct (print_object_first o Ho) as [d [orest [Eo [Hdc Hdf]]]].
   destruct (print_object_last o Ho) as [om [od [Eo2 Hod]]].
-  destruct (print_pred_shape O Q p) as [qm [Ep Hq]].
+  destruct (print_pred_shape O Q p) as [qm [Ep [Hq Hesc]]].
   set (sN := print_node (mkNode ty id)). set (sP := print_pred O p) in *. set (sO := print_object O o) in *.
   set (raw := print_triple O (mkTriple (mkNode ty id) p o)).
   assert (Hraw : raw = sN ++ [c_tab] ++ sP ++ [c_tab] ++ sO) by reflexivity.
@@ -597,28 +598,35 @@ Proof.
   rewrite Hps.
   assert (HlenN : (1 <= length sN)%nat) by (unfold sN, print_node; rewrite !app_length; cbn [length]; lia).
   replace (length sN + 2 - 1)%nat with (length sN + 1)%nat by lia.
-  assert (Hrest : slice raw (Z.of_nat (length sN + 1)) (zlen raw) = Some (sP ++ [c_tab] ++ sO)).
-  { rewrite Hraw. replace (sN ++ [c_tab] ++ sP ++ [c_tab] ++ sO) with ((sN ++ [c_tab]) ++ (sP ++ [c_tab] ++ sO)) by lst.
-    replace (Z.of_nat (length sN + 1)) with (zlen (sN ++ [c_tab])) by zl. apply slice_suffix. }
+  set (ft := anchor_text O p) in *.
+  set (sPh := (c_quote :: qm) ++ c_quote :: [x40; x5b] ++ ft) in *.
+  assert (EsP : sP = sPh ++ [x5d]) by (rewrite Ep; unfold sPh; cbn [app]; rewrite <- !app_assoc; reflexivity).
+  (* skip the quoted id *)
+  assert (Haq : slice raw (Z.of_nat (length sN + 1) + 1) (zlen raw) = Some (qm ++ c_quote :: [x40; x5b] ++ ft ++ [x5d] ++ [c_tab] ++ sO)).
+  { rewrite Hraw, EsP. unfold sPh.
+    replace (sN ++ [c_tab] ++ (((c_quote :: qm) ++ c_quote :: [x40; x5b] ++ ft) ++ [x5d]) ++ [c_tab] ++ sO)
+      with ((sN ++ [c_tab] ++ [c_quote]) ++ (qm ++ c_quote :: [x40; x5b] ++ ft ++ [x5d] ++ [c_tab] ++ sO)) by lst.
+    replace (Z.of_nat (length sN + 1) + 1)%Z with (zlen (sN ++ [c_tab] ++ [c_quote])) by zl. apply slice_suffix. }
+  rewrite Haq. cbn [idx]. rewrite (skip_quoted_escaped qm _ Hesc).
+  assert (Hrest : slice raw (Z.of_nat (length sN + 1 + 1 + length qm)) (zlen raw) = Some (c_quote :: [x40; x5b] ++ ft ++ [x5d] ++ [c_tab] ++ sO)).
+  { rewrite Hraw, EsP. unfold sPh.
+    replace (sN ++ [c_tab] ++ (((c_quote :: qm) ++ c_quote :: [x40; x5b] ++ ft) ++ [x5d]) ++ [c_tab] ++ sO)
+      with ((sN ++ [c_tab] ++ [c_quote] ++ qm) ++ (c_quote :: [x40; x5b] ++ ft ++ [x5d] ++ [c_tab] ++ sO)) by lst.
+    replace (Z.of_nat (length sN + 1 + 1 + length qm)) with (zlen (sN ++ [c_tab] ++ [c_quote] ++ qm)) by zl. apply slice_suffix. }
   rewrite Hrest. cbn [idx].
   (* predicate / object split *)
-  assert (HsP_nows : forall c, In c ((c_quote :: qm) ++ c_quote :: [x40; x5b] ++ anchor_text O p) -> re_space c = false).
-  { intros c Hc.
-    replace ((c_quote :: qm) ++ c_quote :: [x40; x5b] ++ anchor_text O p) with (o_quote O (pid p) ++ [x40; x5b] ++ anchor_text O p) in Hc
-      by (rewrite Hq; cbn [app]; rewrite <- !app_assoc; reflexivity).
-    apply in_app_or in Hc. destruct Hc as [Hc|Hc].
-    - pose proof (law_quote_ws O Q _ Hsp) as W. rewrite forallb_forall in W. specialize (W _ Hc). apply negb_true_iff in W. exact W.
-    - apply in_app_or in Hc. destruct Hc as [Hc|Hc].
-      + destruct Hc as [Hc|[Hc|[]]]; subst c; reflexivity.
-      + destruct (re_space c) eqn:Ec; [|reflexivity]. exfalso. revert Hc. apply (anchor_text_no O p c Hp).
-        unfold re_space in Ec. apply memb_In in Ec. cbn in Ec.
-        destruct Ec as [Ec|[Ec|[Ec|[Ec|[Ec|[]]]]]]; subst c; reflexivity. }
-  set (sPh := (c_quote :: qm) ++ c_quote :: [x40; x5b] ++ anchor_text O p) in *.
-  assert (EsP : sP = sPh ++ [x5d]) by (rewrite Ep; unfold sPh; cbn [app]; rewrite <- !app_assoc; reflexivity).
-  assert (Hos : o_split_from (sP ++ [c_tab] ++ sO) (length sN + 1) = Some (length sN + 1 + length sPh, length sN + 1 + length sPh + 3)%nat).
-  { unfold o_split_from. rewrite EsP. rewrite Eo.
-    replace ((sPh ++ [x5d]) ++ [c_tab] ++ d :: orest) with (sPh ++ x5d :: c_tab :: d :: orest) by lst.
-    rewrite find_split_skip_nows by (try (apply no_ws_of_no; exact HsP_nows); reflexivity).
+  assert (Hft_nows : forall c, In c (c_quote :: [x40; x5b] ++ ft) -> re_space c = false).
+  { intros c Hc. destruct Hc as [Hc|[Hc|[Hc|Hc]]]; try (subst c; reflexivity).
+    destruct (re_space c) eqn:Ec; [|reflexivity]. exfalso. revert Hc. apply (anchor_text_no O p c Hp).
+    unfold re_space in Ec. apply memb_In in Ec. cbn in Ec.
+    destruct Ec as [Ec|[Ec|[Ec|[Ec|[Ec|[]]]]]]; subst c; reflexivity. }
+  assert (Hos : o_split_from (c_quote :: [x40; x5b] ++ ft ++ [x5d] ++ [c_tab] ++ sO) (length sN + 1 + 1 + length qm)
+                = Some (length sN + 1 + length sPh, length sN + 1 + length sPh + 3)%nat).
+  { unfold o_split_from. rewrite Eo.
+    replace (c_quote :: [x40; x5b] ++ ft ++ [x5d] ++ [c_tab] ++ d :: orest) with ((c_quote :: [x40; x5b] ++ ft) ++ x5d :: c_tab :: d :: orest) by lst.
+    rewrite find_split_skip_nows by (try (apply no_ws_of_no; exact Hft_nows); reflexivity).
+    replace (length sN + 1 + 1 + length qm + length (c_quote :: [x40; x5b] ++ ft))%nat with (length sN + 1 + length sPh)%nat
+      by (unfold sPh; cbn [app length]; rewrite !app_length; cbn [length]; lia).
     apply find_split_hit; [exact Hdc|].
     apply memb_In in Hdc. cbn in Hdc. destruct Hdc as [X|[X|[]]]; subst d; reflexivity. }
   rewrite Hos.
@@ -667,9 +675,8 @@ Qed.
 Lemma dom_triple_g : forall t, dom_triple t = true -> gdom_triple O t.
 Proof.
   intros t H. unfold dom_triple in H.
-  apply andb_true_iff in H. destruct H as [H Ho]. apply andb_true_iff in H. destruct H as [H Hsp].
-  apply andb_true_iff in H. destruct H as [H Hp]. apply andb_true_iff in H. destruct H as [Hs Hff].
-  apply negb_true_iff in Hsp. apply negb_true_iff in Hff.
+  apply andb_true_iff in H. destruct H as [H Ho]. apply andb_true_iff in H. destruct H as [H Hp].
+  apply andb_true_iff in H. destruct H as [Hs Hff]. apply negb_true_iff in Hff.
   repeat split; try assumption; [apply dom_pred_g; exact Hp | apply dom_pred_g; exact Hp | apply dom_object_g; exact Ho].
 Qed.
 
